@@ -565,7 +565,7 @@ def main():
                        "in their arguments is not part of the claim.")
     chk.bounds = [
         "nf0 in {3,4,5,6} x nff in {3,4,5,6,None}%s; scale-variation mode in {unvaried, exponentiated, expanded}; order %s"
-        % (" plus nf0=None" if thorough else "", "(1,0),(2,0),(3,0)" if thorough else "(1,0),(2,0)"),
+        % (" plus nf0=None" if thorough else "", "(1,0),(2,0),(3,0)" if thorough else "(2,0), and (1,0) for the expanded scheme"),
         "walls w_q = k_q^2 m_q^2 with k = (2, 4, 2) and m_q^2 symbolic, strictly ordered; initial scale, target t, xif^2 > 0 symbolic reals; neighbour t(1+eps), 0<|eps|<=1e-6, same target nf",
         "targets exactly on a matching scale (lower or upper nf) or on the initial scale are reached symbolically (equalities decided by the solver)",
     ]
@@ -591,6 +591,8 @@ def main():
     # expanded first (longest)
     for sv in ("expanded", "exponentiated", "unvaried"):
         for order in orders:
+            if not thorough and order == (1, 0) and sv != "expanded":
+                continue  # quick tier: LO only for the expanded scheme (NLO covers the same plumbing plus the couplings' flavour number)
             for nf0 in nf0s:
                 for nff in (None, 3, 4, 5, 6):
                     chk.case("cont.%s.o%d.%s-%s" % (sv, order[0], nf0, nff), case_cont, nf0=nf0, nff=nff, sv=sv, order=order)
